@@ -70,16 +70,19 @@ impl Form {
 pub enum Shot {
     Buf,
     /// `hash_stream` over a fault-free reader with these read sizes.
-    Stream { reads: Vec<u32>, scribble: bool },
+    /// (`tail` > 0: after the listed reads the rest of the stream is delivered
+    /// in reads of at most `tail` bytes -- a tiny-read reader all the way)
+    Stream { reads: Vec<u32>, scribble: bool, tail: u32 },
     /// `hash_file` over a consistent scripted file with these read sizes.
-    File { reads: Vec<u32>, scribble: bool },
+    File { reads: Vec<u32>, scribble: bool, tail: u32 },
 }
 
 #[derive(Clone, Debug, PartialEq)]
 pub enum Op {
     Feed { slot: u8, form: Form, bytes: Vec<u8> },
     Skip { slot: u8, n: u64 },
-    Clone { src: u8, dst: u8 },
+    /// via 0: `dst = src.clone()`; via 1: `dst.clone_from(&src)` into the existing object
+    Clone { src: u8, dst: u8, via: u8 },
     Fin { slot: u8 },
     Shot { slot: u8, kind: Shot },
     Declare { slot: u8, size: u64, usize_api: bool },
@@ -99,17 +102,18 @@ impl Op {
             Op::Skip { slot, n } => {
                 J::obj(vec![("op", J::s("skip_zeros")), ("slot", J::u(*slot as u64)), ("n", J::u(*n))])
             }
-            Op::Clone { src, dst } => J::obj(vec![
+            Op::Clone { src, dst, via } => J::obj(vec![
                 ("op", J::s("clone")),
                 ("src", J::u(*src as u64)),
                 ("dst", J::u(*dst as u64)),
+                ("via", J::s(if *via == 0 { "clone" } else { "clone_from" })),
             ]),
             Op::Fin { slot } => J::obj(vec![("op", J::s("finalize")), ("slot", J::u(*slot as u64))]),
             Op::Shot { slot, kind } => {
-                let (k, reads, scribble) = match kind {
-                    Shot::Buf => ("buf", Vec::new(), false),
-                    Shot::Stream { reads, scribble } => ("stream", reads.clone(), *scribble),
-                    Shot::File { reads, scribble } => ("file", reads.clone(), *scribble),
+                let (k, reads, scribble, tail) = match kind {
+                    Shot::Buf => ("buf", Vec::new(), false, 0),
+                    Shot::Stream { reads, scribble, tail } => ("stream", reads.clone(), *scribble, *tail),
+                    Shot::File { reads, scribble, tail } => ("file", reads.clone(), *scribble, *tail),
                 };
                 J::obj(vec![
                     ("op", J::s("one_shot")),
@@ -117,6 +121,7 @@ impl Op {
                     ("kind", J::s(k)),
                     ("reads", J::Arr(reads.iter().map(|&r| J::u(r as u64)).collect())),
                     ("scribble", J::Bool(scribble)),
+                    ("tail", J::u(tail as u64)),
                 ])
             }
             Op::Declare { slot, size, usize_api } => J::obj(vec![
@@ -138,16 +143,21 @@ impl Op {
                 bytes: unhex(j.gs("hex")?)?,
             },
             "skip_zeros" => Op::Skip { slot: slot("slot")?, n: j.gu("n")? },
-            "clone" => Op::Clone { src: slot("src")?, dst: slot("dst")? },
+            "clone" => Op::Clone {
+                src: slot("src")?,
+                dst: slot("dst")?,
+                via: if j.get("via").and_then(|x| x.str_()) == Some("clone_from") { 1 } else { 0 },
+            },
             "finalize" => Op::Fin { slot: slot("slot")? },
             "one_shot" => {
                 let reads: Vec<u32> =
                     j.ga("reads")?.iter().map(|x| x.u64_().unwrap_or(1) as u32).collect();
                 let scribble = j.gb("scribble")?;
+                let tail = j.get("tail").and_then(|x| x.u64_()).unwrap_or(0) as u32;
                 let kind = match j.gs("kind")? {
                     "buf" => Shot::Buf,
-                    "stream" => Shot::Stream { reads, scribble },
-                    "file" => Shot::File { reads, scribble },
+                    "stream" => Shot::Stream { reads, scribble, tail },
+                    "file" => Shot::File { reads, scribble, tail },
                     k => return Err(format!("bad one_shot kind {}", k)),
                 };
                 Op::Shot { slot: slot("slot")?, kind }
@@ -192,22 +202,31 @@ impl Op {
                 }
             }
             Op::Shot { slot, kind } => match kind {
-                Shot::Stream { reads, scribble } if !reads.is_empty() || *scribble => {
-                    v.push(Op::Shot { slot: *slot, kind: Shot::Stream { reads: Vec::new(), scribble: false } });
+                Shot::Stream { reads, scribble, tail } if !reads.is_empty() || *scribble || *tail > 0 => {
+                    v.push(Op::Shot { slot: *slot, kind: Shot::Stream { reads: Vec::new(), scribble: false, tail: *tail } });
                     v.push(Op::Shot {
                         slot: *slot,
-                        kind: Shot::Stream { reads: reads[..reads.len() / 2].to_vec(), scribble: *scribble },
+                        kind: Shot::Stream { reads: reads[..reads.len() / 2].to_vec(), scribble: *scribble, tail: *tail },
                     });
+                    if *tail > 0 {
+                        v.push(Op::Shot { slot: *slot, kind: Shot::Stream { reads: reads.clone(), scribble: *scribble, tail: 0 } });
+                    }
                 }
-                Shot::File { reads, scribble } if !reads.is_empty() || *scribble => {
-                    v.push(Op::Shot { slot: *slot, kind: Shot::File { reads: Vec::new(), scribble: false } });
+                Shot::File { reads, scribble, tail } if !reads.is_empty() || *scribble || *tail > 0 => {
+                    v.push(Op::Shot { slot: *slot, kind: Shot::File { reads: Vec::new(), scribble: false, tail: *tail } });
                     v.push(Op::Shot {
                         slot: *slot,
-                        kind: Shot::File { reads: reads[..reads.len() / 2].to_vec(), scribble: *scribble },
+                        kind: Shot::File { reads: reads[..reads.len() / 2].to_vec(), scribble: *scribble, tail: *tail },
                     });
+                    if *tail > 0 {
+                        v.push(Op::Shot { slot: *slot, kind: Shot::File { reads: reads.clone(), scribble: *scribble, tail: 0 } });
+                    }
                 }
                 _ => {}
             },
+            Op::Clone { src, dst, via } if *via != 0 => {
+                v.push(Op::Clone { src: *src, dst: *dst, via: 0 });
+            }
             Op::Declare { slot, size, usize_api } => {
                 if *usize_api {
                     v.push(Op::Declare { slot: *slot, size: *size, usize_api: false });
@@ -671,12 +690,24 @@ fn step(cx: &mut Ctx, slots: &mut [Slot], op: &Op, twin: bool) {
             }
             cx.ev(true, format_args!("skip s{} {}", slot, n));
         }
-        Op::Clone { src, dst } => {
+        Op::Clone { src, dst, via } => {
             if src != dst {
-                let d = slots[*src as usize].dup();
+                let mut d = slots[*src as usize].dup();
+                if *via != 0 {
+                    // clone_from into the (possibly dirty) existing objects
+                    let old = std::mem::replace(&mut slots[*dst as usize], Slot::new());
+                    let (mut g, mut n, mut f) = (old.g, old.nodecl, old.fresh);
+                    g.clone_from(&slots[*src as usize].g);
+                    n.clone_from(&slots[*src as usize].nodecl);
+                    f.clone_from(&slots[*src as usize].fresh);
+                    d.g = g;
+                    d.nodecl = n;
+                    d.fresh = f;
+                    cx.probe("gen.clone_from");
+                }
                 slots[*dst as usize] = d;
             }
-            cx.ev(true, format_args!("clone s{}->s{}", src, dst));
+            cx.ev(true, format_args!("clone s{}->s{} via{}", src, dst, via));
         }
         Op::New { slot } => {
             slots[*slot as usize] = Slot::new();
@@ -958,9 +989,12 @@ fn shot_step(cx: &mut Ctx, s: &Slot, slot: u8, kind: &Shot, twin: bool) {
                 cx.fail(check, "hash_buf", format!("hash_buf gives {} but Generator gives {}", show(&got), show(&want)));
             }
         }
-        Shot::Stream { reads, scribble } => {
+        Shot::Stream { reads, scribble, tail } => {
             let script: Vec<REv> = reads.iter().map(|&r| REv::Deliver(r.max(1))).collect();
-            let mut rd = SimReader::new(&all, &script, *scribble, true);
+            let mut rd = SimReader::new(&all, &script, *scribble, true).with_tail(*tail);
+            if *tail > 0 && all.len() > 32768 {
+                cx.probe("shot.tiny_reads_beyond_buffer");
+            }
             let got = ssdeep::hash_stream(&mut rd);
             let txt = match &got {
                 Ok(h) => format!("Ok({})", h),
@@ -986,7 +1020,7 @@ fn shot_step(cx: &mut Ctx, s: &Slot, slot: u8, kind: &Shot, twin: bool) {
                 );
             }
         }
-        Shot::File { reads, scribble } => {
+        Shot::File { reads, scribble, tail } => {
             let script: Vec<REv> = reads.iter().map(|&r| REv::Deliver(r.max(1))).collect();
             // The undeclared twin of hash_file is hash_stream over the same
             // reads.  If that twin does not produce the reference hash, the
@@ -994,7 +1028,7 @@ fn shot_step(cx: &mut Ctx, s: &Slot, slot: u8, kind: &Shot, twin: bool) {
             // is then not judged here, because a size declaration that
             // *correctly* refuses a short-fed stream is what C12 demands.
             if twin {
-                let mut rd = SimReader::new(&all, &script, *scribble, true);
+                let mut rd = SimReader::new(&all, &script, *scribble, true).with_tail(*tail);
                 let tw = ssdeep::hash_stream(&mut rd);
                 let twin_ok = matches!((&tw, &want), (Ok(a), Ok(b)) if a.full_eq(b));
                 if !twin_ok {
@@ -1003,7 +1037,7 @@ fn shot_step(cx: &mut Ctx, s: &Slot, slot: u8, kind: &Shot, twin: bool) {
                     return;
                 }
             }
-            let spec = FileSpec { open: Ok(()), meta: Ok(all.len() as u64), script, scribble: *scribble, sticky: true };
+            let spec = FileSpec { open: Ok(()), meta: Ok(all.len() as u64), script, scribble: *scribble, sticky: true, tail: *tail };
             let fr = run_hash_file(&all, &spec);
             let txt = match &fr.result {
                 Ok(h) => format!("Ok({})", h),
@@ -1135,9 +1169,94 @@ fn gen_reads(rng: &mut Rng, total: usize) -> Vec<u32> {
 
 const CLASSES: [Class; 7] = [Class::Tiny, Class::Random, Class::Mixed, Class::Words, Class::ZeroTail, Class::Border, Class::Buffer];
 
+/// Boundary sweep: one payload, the call boundary placed at a dozen offsets
+/// (around the marks and at random), every trial on a re-created slot.
+fn generate_c03_sweep(rng: &mut Rng) -> Vec<Op> {
+    let mut ops = Vec::new();
+    let class = *rng.pick(&[Class::Tiny, Class::Random, Class::Words, Class::ZeroTail, Class::Border, Class::Mixed]);
+    let mut t = gen_payload(rng, class);
+    if t.bytes.len() > 900 {
+        // keep the end (crafted words / zero tails sit there)
+        let cut = t.bytes.len() - 900;
+        t.bytes.drain(..cut);
+        t.marks = t.marks.iter().filter(|&&m| m >= cut).map(|&m| m - cut).collect();
+    }
+    let n = t.bytes.len();
+    let fa = *rng.pick(&FORMS);
+    let fb = *rng.pick(&FORMS);
+    let fix = |f: Form, len: usize| if f == Form::AddArr && ![1usize, 3, 7, 8, 64].contains(&len) { Form::AddSlice } else { f };
+    let trials = rng.range(6, 12);
+    for _ in 0..trials {
+        let k = if !t.marks.is_empty() && rng.chance(2, 3) {
+            let m = *rng.pick(&t.marks) as i64 + rng.range(0, 8) as i64 - 4;
+            m.clamp(0, n as i64) as usize
+        } else {
+            rng.usize_below(n + 1)
+        };
+        ops.push(Op::New { slot: 0 });
+        if rng.chance(1, 3) && k < n {
+            // 3-split with a middle chunk of 1..8 bytes
+            let m = (1 + rng.usize_below(8)).min(n - k);
+            ops.push(Op::Feed { slot: 0, form: fix(fa, k), bytes: t.bytes[..k].to_vec() });
+            ops.push(Op::Feed { slot: 0, form: fix(fb, m), bytes: t.bytes[k..k + m].to_vec() });
+            ops.push(Op::Feed { slot: 0, form: fix(fa, n - k - m), bytes: t.bytes[k + m..].to_vec() });
+        } else {
+            ops.push(Op::Feed { slot: 0, form: fix(fa, k), bytes: t.bytes[..k].to_vec() });
+            if rng.chance(1, 6) {
+                ops.push(Op::Fin { slot: 0 });
+            }
+            ops.push(Op::Feed { slot: 0, form: fix(fb, n - k), bytes: t.bytes[k..].to_vec() });
+        }
+        ops.push(Op::Fin { slot: 0 });
+    }
+    ops
+}
+
+/// Declaration / reset placed at every position of one fixed chunking.
+fn generate_c12_sweep(rng: &mut Rng) -> Vec<Op> {
+    let mut ops = Vec::new();
+    let class = *rng.pick(&[Class::Tiny, Class::Random, Class::Words, Class::ZeroTail, Class::Border, Class::Mixed]);
+    let mut t = gen_payload(rng, class);
+    t.bytes.truncate(2500);
+    let n = t.bytes.len();
+    let nch = rng.range(1, 4) as usize;
+    let mut cuts: Vec<usize> = (0..nch - 1).map(|_| rng.usize_below(n + 1)).collect();
+    cuts.sort_unstable();
+    cuts.push(n);
+    let forms: Vec<Form> = (0..nch).map(|_| *rng.pick(&[Form::Slice, Form::Iter, Form::Bytewise, Form::AddSlice, Form::Chain])).collect();
+    let with_reset = rng.chance(1, 2);
+    let wrong = rng.chance(1, 4);
+    for pos in 0..=nch {
+        ops.push(Op::New { slot: 0 });
+        if with_reset {
+            // dirty first, with a prefix of the same payload and a small declaration
+            ops.push(Op::Declare { slot: 0, size: rng.below(300), usize_api: false });
+            let k = rng.usize_below(n + 1);
+            ops.push(Op::Feed { slot: 0, form: Form::Slice, bytes: t.bytes[..k].to_vec() });
+            ops.push(Op::Reset { slot: 0 });
+        }
+        let mut prev = 0usize;
+        for (ci, &c) in cuts.iter().enumerate() {
+            if ci == pos {
+                ops.push(Op::Declare { slot: 0, size: if wrong { n as u64 + 1 } else { n as u64 }, usize_api: rng.chance(1, 3) });
+            }
+            ops.push(Op::Feed { slot: 0, form: forms[ci], bytes: t.bytes[prev..c].to_vec() });
+            prev = c;
+        }
+        if pos == nch {
+            ops.push(Op::Declare { slot: 0, size: if wrong { n as u64 + 1 } else { n as u64 }, usize_api: false });
+        }
+        ops.push(Op::Fin { slot: 0 });
+    }
+    ops
+}
+
 /// Plain C03 history.
 pub fn generate_c03(seed: u64) -> Vec<Op> {
     let mut rng = Rng::new(seed);
+    if rng.chance(1, 6) {
+        return generate_c03_sweep(&mut rng);
+    }
     let mut ops = Vec::new();
     // swarm: subset of forms enabled in this run
     let mut forms: Vec<Form> = FORMS.iter().copied().filter(|_| rng.chance(2, 3)).collect();
@@ -1189,7 +1308,7 @@ pub fn generate_c03(seed: u64) -> Vec<Op> {
             2 if nslots > 1 => {
                 let dst = (si + 1 + rng.usize_below(nslots - 1)) % nslots;
                 if dst != si {
-                    ops.push(Op::Clone { src: si as u8, dst: dst as u8 });
+                    ops.push(Op::Clone { src: si as u8, dst: dst as u8, via: rng.below(2) as u8 });
                     let c = cur[si].as_ref().unwrap();
                     let mut nc = Cursor { tape: c.tape, pos: c.pos };
                     if rng.chance(1, 2) {
@@ -1257,7 +1376,9 @@ pub fn generate_c03(seed: u64) -> Vec<Op> {
                 0 => Shot::Buf,
                 _ => {
                     let total: usize = 200_000;
-                    Shot::Stream { reads: gen_reads(&mut rng, total.min(70_000)), scribble: rng.chance(1, 2) }
+                    let tail = if rng.chance(1, 4) { *rng.pick(&[1u32, 5, 63]) } else { 0 };
+                    let reads = if tail > 0 && rng.chance(1, 2) { Vec::new() } else { gen_reads(&mut rng, total.min(70_000)) };
+                    Shot::Stream { reads, scribble: rng.chance(1, 2), tail }
                 }
             };
             ops.push(Op::Shot { slot: i as u8, kind });
@@ -1341,6 +1462,9 @@ fn odd_size(rng: &mut Rng, planned: u64, current: u64) -> u64 {
 /// Twin-mode history for C12.
 pub fn generate_c12(seed: u64) -> Vec<Op> {
     let mut rng = Rng::new(seed);
+    if rng.chance(1, 6) {
+        return generate_c12_sweep(&mut rng);
+    }
     let mut ops = Vec::new();
     let mut forms: Vec<Form> = FORMS.iter().copied().filter(|_| rng.chance(1, 2)).collect();
     if forms.is_empty() {
@@ -1452,7 +1576,8 @@ pub fn generate_c12(seed: u64) -> Vec<Op> {
         let kind = if rng.chance(1, 2) {
             Shot::Buf
         } else {
-            Shot::File { reads: gen_reads(&mut rng, tape.bytes.len().min(70_000)), scribble: rng.chance(1, 2) }
+            let tail = if rng.chance(1, 4) { *rng.pick(&[1u32, 5, 63]) } else { 0 };
+            Shot::File { reads: gen_reads(&mut rng, tape.bytes.len().min(70_000)), scribble: rng.chance(1, 2), tail }
         };
         ops.push(Op::Shot { slot, kind });
     }
